@@ -50,6 +50,10 @@ def judge(case: dict, r: dict) -> list[tuple[str, str]]:
     if r["outcome"] in ("hang", "harness-error"):
         fails.append((f"run:{r['outcome']}", f"{name}: {r.get('msg', '')[:300]}"))
         return fails
+    rows = r.get("execution_rows") or {}
+    for job, n in r["attempts"].items():
+        if job in rows and len(rows[job]) != n:
+            fails.append(("execution-table-disagrees-with-injector-log", f"{name}: {job}: {len(rows[job])} rows in `execution`, {n} executions logged"))
     if limit is not None:
         for job, n in r["attempts"].items():
             if n > limit:
